@@ -110,7 +110,7 @@ func (c *compiler) compile() (string, error) {
 			if be := blockErrorOf(err, c.exec); be != nil {
 				s = be.stmt
 			}
-			return "", fmt.Errorf("line %d: %w", s.T().LineNumber, err)
+			return "", &lineError{line: s.T().LineNumber, err: err}
 		}
 
 		c.write(bb, res)
